@@ -1,2 +1,932 @@
-// Package c12: monitor for property C12 (see DESIGN.md section 2).
+// Package c12: SQL integrity constraints hold in every reachable state.
+//
+// 1–8 concurrent sessions on one embedded sql.Engine run PRNG DDL/DML, as
+// autocommit statements and as multi-statement transactions, with statements
+// deliberately aimed at every declared constraint. Every inserted row carries a
+// unique tag. Oracles: (i) state invariants read through the primary index in a
+// read-only tx, during the concurrent phases and at quiescent points (primary /
+// unique keys distinct, NOT NULL, CHECK by query and by a harness evaluator,
+// declared lengths and types); (ii) a reference model fed only with the
+// statements of committed transactions in commit order (store tx id): its
+// verdict on every committed statement (a statement that certainly violates a
+// constraint must not have been committed) and, at quiescent points, equality of
+// table contents and catalog with the model (nothing of a failed statement, of
+// an aborted / rolled back / conflicted transaction is visible; everything of a
+// committed one is).
 package c12
+
+import (
+	"context"
+	"encoding/json"
+	"errors"
+	"fmt"
+	"os"
+	"sort"
+	"strings"
+	"sync"
+	"sync/atomic"
+	"time"
+
+	"github.com/codenotary/immudb/embedded/sql"
+	"github.com/codenotary/immudb/embedded/store"
+
+	"verifharness/internal/fw"
+	"verifharness/internal/hook"
+	"verifharness/internal/sth"
+)
+
+func init() {
+	fw.RegisterMonitor("C12", "exploration", Run)
+	fw.RegisterIsolated("c12-program", runCase)
+}
+
+type caseSpec struct {
+	Index     int
+	Sessions  int
+	Phases    int
+	TxPerSess int
+	Perturb   bool
+}
+
+func Run(c *fw.Ctx) {
+	c.Rule = "PRNG programs (schema with single/composite/auto-increment keys, unique indexes, NOT NULL, CHECK, VARCHAR[n]/BLOB[n]; 1-8 concurrent sessions × phases of autocommit / implicit / BEGIN..COMMIT / step-by-step transactions; DDL phases and concurrent index creation), one child process per program; an evaluation is one state invariant checked on one table snapshot, one verdict on a committed statement, or one table/catalog comparison with the model of committed transactions; distinct = (constraint aimed at × statement kind × transaction mode × concurrent or solo × observed outcome)"
+	c.Assume("a committed transaction is judged against the state produced by the committed transactions with smaller store tx ids (commit order); this is the serialization order promised by the store's read-conflict detection (C05)")
+	c.Assume("NULL semantics of unique indexes, the engine's extra rule on explicit auto-increment keys, and a CHECK whose operand is NULL are left to the engine (either outcome accepted)")
+	r := c.Rand("c12/programs")
+	n := c.N(60, 3000)
+	var cases [][]byte
+	for i := 0; i < n; i++ {
+		sp := caseSpec{Index: i, Sessions: []int{1, 2, 4, 6, 6, 8, 6, 3}[i%8], Phases: 3, TxPerSess: 10 + r.IntN(8), Perturb: i%3 == 1}
+		if sp.Sessions == 1 {
+			sp.TxPerSess *= 3
+		}
+		if only := os.Getenv("VERIF_C12_ONLY"); only != "" && only != fmt.Sprint(i) {
+			continue // development aid: run a single program
+		}
+		b, _ := json.Marshal(sp)
+		cases = append(cases, b)
+	}
+	c.RunIsolated("c12-program", cases, fw.CasesOpts{Workers: 14, CaseTimout: 15 * time.Minute})
+}
+
+// ---- per-case runtime -------------------------------------------------------
+
+type txResult struct {
+	plan     *TxPlan
+	phase    int
+	conc     bool
+	status   string // committed | noop | failed | rolledback | unknown
+	hdr      uint64
+	failedAt int // index of the failing statement when known, else -1
+	errClass string
+	errText  string
+	first    map[string]int64
+	last     map[string]int64
+}
+
+type tagInfo struct {
+	plan *TxPlan
+	stmt int
+}
+
+type stateViol struct {
+	kind   string // notnull | check | len | type | dup-pk | dup-unique
+	key    string // attribution key in Row.Viol
+	table  string
+	tags   []string
+	detail string
+}
+
+type runner struct {
+	c     *fw.Ctx
+	spec  caseSpec
+	st    *store.ImmuStore
+	eng   *sql.Engine
+	prog  *Program
+	model *Model
+
+	mu        sync.Mutex
+	planRes   map[*TxPlan]*txResult
+	pending   []*txResult
+	tagOrigin map[string]tagInfo
+	seenTags  map[string]struct{}
+	stateV    []stateViol
+	history   []string
+	unknown   int
+	tainted   bool
+	hdrSeen   map[uint64]*TxPlan
+	timeouts  atomic.Int64
+}
+
+func errClass(err error) string {
+	switch {
+	case err == nil:
+		return ""
+	case errors.Is(err, store.ErrTxReadConflict):
+		return "conflict"
+	case errors.Is(err, store.ErrKeyAlreadyExists):
+		return "dup"
+	case errors.Is(err, sql.ErrNotNullableColumnCannotBeNull):
+		return "notnull"
+	case errors.Is(err, sql.ErrCheckConstraintViolation):
+		return "check"
+	case errors.Is(err, sql.ErrMaxLengthExceeded):
+		return "len"
+	case errors.Is(err, sql.ErrPKCanNotBeNull):
+		return "pknull"
+	case errors.Is(err, sql.ErrPKCanNotBeUpdated):
+		return "pkupdate"
+	case errors.Is(err, sql.ErrLimitedIndexCreation):
+		return "index-on-populated-table"
+	case errors.Is(err, sql.ErrNewColumnMustBeNullable):
+		return "newcol-notnull"
+	case errors.Is(err, sql.ErrCannotDropColumn):
+		return "cannot-drop"
+	case errors.Is(err, sql.ErrInvalidValue), errors.Is(err, sql.ErrNotComparableValues), errors.Is(err, sql.ErrInvalidTypes):
+		return "type-or-value"
+	case errors.Is(err, sql.ErrColumnDoesNotExist), errors.Is(err, sql.ErrTableDoesNotExist), errors.Is(err, sql.ErrColumnAlreadyExists), errors.Is(err, sql.ErrIndexAlreadyExists):
+		return "schema"
+	case errors.Is(err, context.DeadlineExceeded), errors.Is(err, context.Canceled):
+		return "timeout"
+	}
+	return "other"
+}
+
+const opTimeout = 60 * time.Second
+
+// exec runs one Exec call. The context belongs to the whole transaction (the store tx keeps the
+// context it was opened with), so the caller cancels it only when the transaction is over.
+func (rn *runner) exec(ctx context.Context, tx *sql.SQLTx, q string, params map[string]any) (*sql.SQLTx, []*sql.SQLTx, error, bool) {
+	ntx, ctxs, err := rn.eng.Exec(ctx, tx, q, params)
+	to := ctx.Err() != nil
+	if to {
+		rn.timeouts.Add(1)
+	}
+	return ntx, ctxs, err, to
+}
+
+func (rn *runner) runTx(p *TxPlan, phase int, conc bool) *txResult {
+	res := &txResult{plan: p, phase: phase, conc: conc, failedAt: -1}
+	params := map[string]any{}
+	var sqls []string
+	for i, s := range p.Stmts {
+		sqls = append(sqls, s.SQL(fmt.Sprintf("q%d", i), params))
+	}
+	end := "COMMIT"
+	if p.Rollback {
+		end = "ROLLBACK"
+	}
+	var ctxs []*sql.SQLTx
+	var err error
+	var to bool
+	ctx, cancel := context.WithTimeout(context.Background(), opTimeout)
+	defer cancel()
+	switch p.Mode {
+	case "steps":
+		var tx *sql.SQLTx
+		tx, _, err, to = rn.exec(ctx, nil, "BEGIN TRANSACTION", nil)
+		if err == nil && !to {
+			for i := range sqls {
+				tx, ctxs, err, to = rn.exec(ctx, tx, sqls[i], params)
+				if err != nil || to {
+					res.failedAt = i
+					break
+				}
+			}
+			if err == nil && !to {
+				_, ctxs, err, to = rn.exec(ctx, tx, end, nil)
+			}
+		}
+	default:
+		q := strings.Join(sqls, "; ")
+		if p.Mode == "block" {
+			q = "BEGIN TRANSACTION; " + q + "; " + end
+		}
+		if p.Mode == "auto" {
+			res.failedAt = 0
+		}
+		_, ctxs, err, to = rn.exec(ctx, nil, q, params)
+	}
+	var hdrs []*sql.SQLTx
+	for _, t := range ctxs {
+		if t != nil && t.TxHeader() != nil {
+			hdrs = append(hdrs, t)
+		}
+	}
+	switch {
+	case to:
+		res.status = "unknown"
+	case err != nil:
+		res.status, res.errClass, res.errText = "failed", errClass(err), err.Error()
+		if len(hdrs) > 0 {
+			rn.taint(fmt.Sprintf("%s returned an error (%v) together with a committed transaction", p.Text(), err))
+		}
+	case p.Rollback && (p.Mode == "block" || p.Mode == "steps"):
+		res.status = "rolledback"
+		if len(hdrs) > 0 {
+			rn.c.Violation("rollback/transaction-committed/"+p.Mode, fmt.Sprintf("%s ended with ROLLBACK but a store transaction %d was committed for it", p.Text(), hdrs[0].TxHeader().ID), rn.files())
+			res.status, res.hdr = "committed", hdrs[0].TxHeader().ID
+		}
+	case len(hdrs) == 0:
+		res.status = "noop"
+	default:
+		res.status, res.hdr = "committed", hdrs[0].TxHeader().ID
+		res.first, res.last = map[string]int64{}, map[string]int64{}
+		for k, v := range hdrs[0].FirstInsertedPKs() {
+			res.first[k] = v
+		}
+		for k, v := range hdrs[0].LastInsertedPKs() {
+			res.last[k] = v
+		}
+		if len(hdrs) > 1 {
+			rn.taint(fmt.Sprintf("%s produced %d committed store transactions", p.Text(), len(hdrs)))
+		}
+	}
+	if res.status != "failed" {
+		res.failedAt = -1
+	}
+	rn.mu.Lock()
+	rn.planRes[p] = res
+	if res.status == "committed" {
+		rn.pending = append(rn.pending, res)
+	}
+	if res.status == "unknown" {
+		rn.unknown++
+	}
+	rn.mu.Unlock()
+	rn.c.Count("tx_"+res.status, 1)
+	if res.errClass != "" {
+		rn.c.Count("err_"+res.errClass, 1)
+		if res.errClass == "other" {
+			rn.c.Note("unclassified error: " + res.errText)
+		}
+	}
+	return res
+}
+
+func (rn *runner) taint(why string) {
+	rn.mu.Lock()
+	rn.tainted = true
+	rn.mu.Unlock()
+	rn.c.Note(why)
+}
+
+func (rn *runner) files() map[string][]byte {
+	rn.mu.Lock()
+	defer rn.mu.Unlock()
+	spec, _ := json.Marshal(rn.spec)
+	return map[string][]byte{"history.txt": []byte(strings.Join(rn.history, "\n") + "\n"), "case.json": spec}
+}
+
+func (rn *runner) log(format string, a ...any) {
+	rn.mu.Lock()
+	rn.history = append(rn.history, fmt.Sprintf(format, a...))
+	rn.mu.Unlock()
+}
+
+func (rn *runner) viol(sig, detail string) {
+	rn.c.Violation(sig, fmt.Sprintf("[program %d, %d sessions, seed %d] %s", rn.spec.Index, rn.spec.Sessions, rn.c.Seed, detail), rn.files())
+}
+
+func resLine(res *txResult) string {
+	out := res.status
+	switch res.status {
+	case "committed":
+		out = fmt.Sprintf("committed as store tx %d", res.hdr)
+	case "failed":
+		out = fmt.Sprintf("failed (%s: %s)", res.errClass, res.errText)
+		if res.failedAt >= 0 {
+			out += fmt.Sprintf(" at statement %d", res.failedAt)
+		}
+	}
+	return fmt.Sprintf("%s  => %s", res.plan.Text(), out)
+}
+
+// runPhase executes the phase's sessions (concurrently when there are several) with a
+// concurrent state checker, then takes the quiescent checks.
+func (rn *runner) runPhase(idx int, ph *Phase) {
+	conc := len(ph.Sess) > 1
+	rn.log("-- phase %d (%s, %d sessions)", idx, ph.Kind, len(ph.Sess))
+	for _, txs := range ph.Sess {
+		for _, p := range txs {
+			for i, s := range p.Stmts {
+				for _, tag := range s.Tags {
+					rn.tagOrigin[tag] = tagInfo{p, i}
+				}
+			}
+		}
+	}
+	var wg sync.WaitGroup
+	stop := make(chan struct{})
+	var cwg sync.WaitGroup
+	if ph.Kind == "dml" {
+		cwg.Add(1)
+		go func() {
+			defer cwg.Done()
+			for scans := 0; scans < 25; scans++ {
+				select {
+				case <-stop:
+					return
+				default:
+				}
+				rn.checkState(true)
+				time.Sleep(3 * time.Millisecond)
+			}
+		}()
+	}
+	for _, txs := range ph.Sess {
+		wg.Add(1)
+		go func(txs []*TxPlan) {
+			defer wg.Done()
+			for _, p := range txs {
+				if rn.timeouts.Load() >= 3 {
+					return
+				}
+				res := rn.runTx(p, idx, conc)
+				rn.log("%s", resLine(res))
+			}
+		}(txs)
+	}
+	wg.Wait()
+	close(stop)
+	cwg.Wait()
+	rn.quiescent(idx)
+}
+
+// ---- engine state -----------------------------------------------------------
+
+type engCol struct {
+	name, typ string
+	max       int
+	notNull   bool
+}
+
+type engTable struct {
+	name string
+	cols []engCol
+	pk   []string
+	uniq [][]string
+	idx  [][]string
+	rows []map[string]Val
+}
+
+func fromTyped(v sql.TypedValue) Val {
+	if v == nil || v.IsNull() {
+		return vNull()
+	}
+	switch x := v.RawValue().(type) {
+	case int64:
+		return vInt(x)
+	case string:
+		return vStr(x)
+	case []byte:
+		return vBlob(string(x))
+	}
+	return Val{K: '?', S: fmt.Sprintf("%T %v", v.RawValue(), v.RawValue())}
+}
+
+// scan reads every table through its primary index in one read-only transaction.
+func (rn *runner) scan() (map[string]*engTable, map[string]int64, error) {
+	ctx, cancel := context.WithTimeout(context.Background(), opTimeout)
+	defer cancel()
+	tx, err := rn.eng.NewTx(ctx, sql.DefaultTxOptions().WithReadOnly(true))
+	if err != nil {
+		return nil, nil, err
+	}
+	defer tx.Cancel()
+	out := map[string]*engTable{}
+	notCheck := map[string]int64{}
+	for _, t := range tx.Catalog().GetTables() {
+		et := &engTable{name: t.Name()}
+		var names []string
+		for _, c := range t.Cols() {
+			et.cols = append(et.cols, engCol{c.Name(), string(c.Type()), c.MaxLen(), !c.IsNullable()})
+			names = append(names, c.Name())
+		}
+		for _, ix := range t.GetIndexes() {
+			var cs []string
+			for _, c := range ix.Cols() {
+				cs = append(cs, c.Name())
+			}
+			switch {
+			case ix.IsPrimary():
+				et.pk = cs
+			case ix.IsUnique():
+				et.uniq = append(et.uniq, cs)
+			default:
+				et.idx = append(et.idx, cs)
+			}
+		}
+		rd, err := rn.eng.Query(ctx, tx, "SELECT "+strings.Join(names, ", ")+" FROM "+et.name, nil)
+		if err != nil {
+			return nil, nil, fmt.Errorf("scan of %s: %w", et.name, err)
+		}
+		for {
+			row, err := rd.Read(ctx)
+			if errors.Is(err, sql.ErrNoMoreRows) {
+				break
+			}
+			if err != nil {
+				rd.Close()
+				return nil, nil, fmt.Errorf("scan of %s: %w", et.name, err)
+			}
+			m := map[string]Val{}
+			for i, n := range names {
+				m[n] = fromTyped(row.ValuesByPosition[i])
+			}
+			et.rows = append(et.rows, m)
+		}
+		rd.Close()
+		for _, k := range rn.checksOf(et) {
+			q := fmt.Sprintf("SELECT COUNT(*) FROM %s WHERE NOT (%s)", et.name, k.Expr())
+			rd, err := rn.eng.Query(ctx, tx, q, nil)
+			if err != nil {
+				rn.c.Count("check_query_errors", 1)
+				continue
+			}
+			row, err := rd.Read(ctx)
+			rd.Close()
+			if err != nil {
+				rn.c.Count("check_query_errors", 1)
+				continue
+			}
+			notCheck[et.name+"\x00"+k.Col] = fromTyped(row.ValuesByPosition[0]).I
+		}
+		out[et.name] = et
+	}
+	return out, notCheck, nil
+}
+
+// checksOf: the CHECKs declared at table creation whose column still exists (they are never dropped or renamed).
+func (rn *runner) checksOf(et *engTable) []Check {
+	var out []Check
+	for _, t := range rn.prog.Tables {
+		if t.Name != et.name {
+			continue
+		}
+		for _, k := range t.Checks {
+			for _, c := range et.cols {
+				if c.name == k.Col {
+					out = append(out, k)
+				}
+			}
+		}
+	}
+	return out
+}
+
+// checkState evaluates the state invariants on one snapshot; violations are queued and
+// attributed at the next quiescent point. Returns the snapshot.
+func (rn *runner) checkState(concurrent bool) map[string]*engTable {
+	snap, notCheck, err := rn.scan()
+	if err != nil {
+		if errors.Is(err, context.DeadlineExceeded) {
+			rn.timeouts.Add(1)
+		} else if concurrent && (errors.Is(err, sql.ErrColumnDoesNotExist) || errors.Is(err, sql.ErrTableDoesNotExist)) {
+			rn.c.Count("scan_schema_races", 1)
+		} else {
+			rn.c.Count("scan_errors", 1)
+			rn.c.Note("scan failed: " + err.Error())
+		}
+		return nil
+	}
+	var vs []stateViol
+	seen := map[string]struct{}{}
+	for _, et := range snap {
+		tagOf := func(r map[string]Val) string { return r["tag"].S }
+		// primary key and unique indexes
+		keysets := append([][]string{et.pk}, et.uniq...)
+		for i, ks := range keysets {
+			byKey := map[string]string{}
+			for _, r := range et.rows {
+				k, hasNull := tupleKey(r, ks)
+				if hasNull && i > 0 {
+					continue
+				}
+				if other, dup := byKey[k]; dup {
+					kind, key := "dup-unique", "dup-unique:"+strings.Join(ks, ",")
+					if i == 0 {
+						kind, key = "dup-pk", "dup-pk"
+					}
+					vs = append(vs, stateViol{kind, key, et.name, []string{tagOf(r), other},
+						fmt.Sprintf("table %s holds two live rows (tags %s and %s) with the same (%s)", et.name, other, tagOf(r), strings.Join(ks, ","))})
+				}
+				byKey[k] = tagOf(r)
+			}
+			rn.c.Eval(1)
+		}
+		for _, c := range et.cols {
+			for _, r := range et.rows {
+				v := r[c.name]
+				switch {
+				case v.IsNull():
+					if c.notNull {
+						vs = append(vs, stateViol{"notnull", "notnull:" + c.name, et.name, []string{tagOf(r)},
+							fmt.Sprintf("table %s row %s holds NULL in NOT NULL column %s", et.name, tagOf(r), c.name)})
+					}
+				case v.K != map[string]byte{"INTEGER": 'i', "VARCHAR": 's', "BLOB": 'b'}[c.typ]:
+					vs = append(vs, stateViol{"type", "type:" + c.name, et.name, []string{tagOf(r)},
+						fmt.Sprintf("table %s row %s column %s %s holds %v", et.name, tagOf(r), c.name, c.typ, v)})
+				case c.typ != "INTEGER" && len(v.S) > c.max:
+					vs = append(vs, stateViol{"len", "len:" + c.name, et.name, []string{tagOf(r)},
+						fmt.Sprintf("table %s row %s column %s %s[%d] holds %d bytes", et.name, tagOf(r), c.name, c.typ, c.max, len(v.S))})
+				}
+			}
+			rn.c.Eval(1)
+		}
+		for _, k := range rn.checksOf(et) {
+			bad := int64(0)
+			for _, r := range et.rows {
+				if k.Holds(r[k.Col]) == 0 {
+					bad++
+					vs = append(vs, stateViol{"check", "check:" + k.Col, et.name, []string{tagOf(r)},
+						fmt.Sprintf("table %s row %s violates CHECK (%s): %s = %v", et.name, tagOf(r), k.Expr(), k.Col, r[k.Col])})
+				}
+			}
+			rn.c.Eval(1)
+			if n, ok := notCheck[et.name+"\x00"+k.Col]; ok {
+				rn.c.Eval(1)
+				if n > 0 && bad == 0 && !concurrent {
+					// the query saw rows violating the CHECK that the scan of the same quiescent state did not
+					vs = append(vs, stateViol{"check", "check:" + k.Col, et.name, nil,
+						fmt.Sprintf("SELECT COUNT(*) FROM %s WHERE NOT (%s) = %d while the harness evaluator found no such row", et.name, k.Expr(), n)})
+				} else if n > 0 && bad == 0 {
+					vs = append(vs, stateViol{"check", "check:" + k.Col, et.name, nil,
+						fmt.Sprintf("SELECT COUNT(*) FROM %s WHERE NOT (%s) = %d", et.name, k.Expr(), n)})
+				}
+			}
+		}
+		for _, r := range et.rows {
+			seen[tagOf(r)] = struct{}{}
+		}
+	}
+	rn.mu.Lock()
+	if len(rn.stateV) < 200 {
+		rn.stateV = append(rn.stateV, vs...)
+	}
+	if concurrent {
+		for t := range seen {
+			rn.seenTags[t] = struct{}{}
+		}
+	}
+	rn.mu.Unlock()
+	rn.c.Count("state_scans", 1)
+	return snap
+}
+
+// ---- quiescent point ---------------------------------------------------------
+
+func outcomeKey(aim, kind, mode string, conc bool, outcome string) string {
+	cs := "solo"
+	if conc {
+		cs = "concurrent"
+	}
+	if aim == "" {
+		aim = "unaimed"
+	}
+	return fmt.Sprintf("%s/%s/%s/%s/%s", aim, kind, mode, cs, outcome)
+}
+
+func (rn *runner) originClass(tag string) (class string, res *txResult) {
+	info, ok := rn.tagOrigin[tag]
+	if !ok {
+		return "unknown-tag", nil
+	}
+	res = rn.planRes[info.plan]
+	if res == nil {
+		return "never-executed-tx", nil
+	}
+	switch res.status {
+	case "failed":
+		switch {
+		case res.errClass == "conflict":
+			return "conflicted-tx", res
+		case res.failedAt == info.stmt:
+			return "failed-statement", res
+		default:
+			return "aborted-tx", res
+		}
+	case "rolledback":
+		return "rolled-back-tx", res
+	case "noop":
+		return "tx-without-store-transaction", res
+	}
+	return res.status, res
+}
+
+func (rn *runner) quiescent(phase int) {
+	// 1. feed the model with the committed transactions, in commit order
+	rn.mu.Lock()
+	pend := rn.pending
+	rn.pending = nil
+	unknown := rn.unknown
+	tainted := rn.tainted
+	rn.mu.Unlock()
+	sort.Slice(pend, func(i, j int) bool { return pend[i].hdr < pend[j].hdr })
+	rn.log("-- quiescent point after phase %d: %d committed transactions applied to the model in this order:", phase, len(pend))
+	modelOK := unknown == 0 && !tainted
+	for _, res := range pend {
+		rn.log("   store tx %d: %s", res.hdr, res.plan.Text())
+		if other, dup := rn.hdrSeen[res.hdr]; dup {
+			rn.viol("commit/one-store-transaction-for-two-sql-transactions", fmt.Sprintf("store tx %d was reported as the commit of both %s and %s", res.hdr, other.Text(), res.plan.Text()))
+		}
+		rn.hdrSeen[res.hdr] = res.plan
+		ids := &idSeq{next: map[string]int64{}, have: map[string]bool{}}
+		for k, v := range res.first {
+			ids.next[k], ids.have[k] = v, true
+		}
+		for i, s := range res.plan.Stmts {
+			v, err := rn.model.Apply(s, ids)
+			rn.c.Eval(1)
+			if err != nil {
+				if modelOK {
+					rn.viol("ddl/committed-statement-does-not-fit-committed-schema/"+s.Kind, fmt.Sprintf("store tx %d committed %q but under the schema produced by the committed DDL so far: %v", res.hdr, s.Text(), err))
+				}
+				continue
+			}
+			outcome := "accepted-legally"
+			if v.Unknown {
+				outcome = "accepted-unjudged"
+			}
+			if len(v.Must) > 0 {
+				outcome = "ACCEPTED-ILLEGALLY"
+			}
+			if s.Aim != "" || i == 0 {
+				rn.c.Distinct(outcomeKey(s.Aim, s.Kind, res.plan.Mode, res.conc, outcome))
+			}
+			if modelOK {
+				for _, kind := range v.Must {
+					rn.viol(kind+"/accepted-from/"+s.Kind, fmt.Sprintf("store tx %d committed %q (transaction %s) although, in the state left by the transactions committed before it, the statement violates the %s constraint", res.hdr, s.Text(), res.plan.Text(), kind))
+				}
+			}
+		}
+		for tname, next := range ids.next {
+			if t := rn.model.Tables[tname]; t != nil && t.Auto && next != res.first[tname] {
+				rn.c.Eval(1)
+				if res.last[tname] != next-1 && modelOK {
+					rn.viol("auto-increment/reported-keys-inconsistent", fmt.Sprintf("store tx %d (%s) inserted %d rows with generated keys into %s but reported first=%d last=%d", res.hdr, res.plan.Text(), next-res.first[tname], tname, res.first[tname], res.last[tname]))
+				}
+			}
+		}
+	}
+	// outcomes of the transactions that did not commit
+	rn.mu.Lock()
+	for p, res := range rn.planRes {
+		if res.phase != phase || res.status == "committed" {
+			continue
+		}
+		for i, s := range p.Stmts {
+			if s.Aim == "" && i > 0 {
+				continue
+			}
+			outcome := res.status
+			if res.status == "failed" {
+				outcome = "rejected:" + res.errClass
+				if res.failedAt >= 0 && res.failedAt != i {
+					outcome = "tx-aborted-by-other-statement"
+				} else if res.failedAt < 0 {
+					outcome = "tx-rejected:" + res.errClass
+				}
+			}
+			rn.c.Distinct(outcomeKey(s.Aim, s.Kind, p.Mode, res.conc, outcome))
+		}
+	}
+	rn.mu.Unlock()
+
+	// 2. state invariants at the quiescent point
+	snap := rn.checkState(false)
+	rn.mu.Lock()
+	stateV := rn.stateV
+	rn.stateV = nil
+	seenTags := rn.seenTags
+	rn.seenTags = map[string]struct{}{}
+	rn.mu.Unlock()
+	reported := map[string]bool{}
+	for _, sv := range stateV {
+		by := "unattributed"
+		for _, tag := range sv.tags {
+			if k, ok := rn.model.ViolLog[sv.table+"\x00"+tag+"\x00"+sv.key]; ok {
+				by = k
+				break
+			}
+		}
+		sig := sv.kind + "/accepted-from/" + by
+		if by == "unattributed" {
+			sig = sv.kind + "/in-committed-state"
+		}
+		if !reported[sig+sv.detail] {
+			reported[sig+sv.detail] = true
+			rn.viol(sig, "state invariant: "+sv.detail)
+		}
+	}
+	if snap == nil {
+		return
+	}
+	if !modelOK {
+		rn.c.Inconclusive(fmt.Sprintf("program %d: %d transactions with unknown outcome (operation did not return within %s): model comparison skipped", rn.spec.Index, unknown, opTimeout))
+		return
+	}
+	// 3. rows seen by the concurrent scans must stem from transactions that committed
+	for tag := range seenTags {
+		rn.c.Eval(1)
+		if class, res := rn.originClass(tag); class != "committed" && class != "unknown" {
+			txt := ""
+			if res != nil {
+				txt = resLine(res)
+			}
+			rn.viol("atomicity/visible-row-of/"+class+"/"+modeOf(res), fmt.Sprintf("a concurrent read-only scan returned row %s, inserted by: %s", tag, txt))
+		}
+	}
+	// 4. catalog and table contents equal the model
+	for name, mt := range rn.model.Tables {
+		et := snap[name]
+		rn.c.Eval(2)
+		if et == nil {
+			rn.viol("ddl/table-missing", fmt.Sprintf("table %s is not in the catalog", name))
+			continue
+		}
+		if class, d := schemaDiff(mt, et); d != "" {
+			rn.viol("ddl/catalog-differs-from-committed-ddl/"+class, fmt.Sprintf("table %s: %s", name, d))
+		}
+		byTag := map[string]map[string]Val{}
+		for _, r := range et.rows {
+			tag := r["tag"].S
+			if _, dup := byTag[tag]; dup {
+				rn.viol("atomicity/row-duplicated", fmt.Sprintf("table %s returns two rows with tag %s", name, tag))
+			}
+			byTag[tag] = r
+		}
+		for tag, r := range byTag {
+			mr := mt.Rows[tag]
+			if mr == nil {
+				class, res := rn.originClass(tag)
+				txt := ""
+				if res != nil {
+					txt = resLine(res)
+				}
+				if class == "committed" {
+					rn.viol("atomicity/committed-state-differs/unexpected-row", fmt.Sprintf("table %s holds row %s %v which the committed transactions, applied in commit order, do not leave behind; inserted by: %s", name, tag, showRow(r), txt))
+				} else if class != "unknown" {
+					rn.viol("atomicity/visible-row-of/"+class+"/"+modeOf(res), fmt.Sprintf("table %s holds row %s %v, inserted by: %s", name, tag, showRow(r), txt))
+				}
+				continue
+			}
+			for _, c := range mt.Cols {
+				if !mr.Vals[c.Name].Eq(r[c.Name]) {
+					rn.viol("atomicity/committed-state-differs/value", fmt.Sprintf("table %s row %s column %s: engine holds %v, the committed transactions applied in commit order give %v", name, tag, c.Name, r[c.Name], mr.Vals[c.Name]))
+					break
+				}
+			}
+		}
+		for tag := range mt.Rows {
+			if byTag[tag] == nil {
+				_, res := rn.originClass(tag)
+				txt := ""
+				if res != nil {
+					txt = resLine(res)
+				}
+				rn.viol("atomicity/committed-row-missing/"+rn.missingShape(tag), fmt.Sprintf("table %s lacks row %s %v although it was inserted by a committed transaction and no later committed statement removes it: %s", name, tag, showRow(mt.Rows[tag].Vals), txt))
+			}
+		}
+	}
+}
+
+// missingShape names the history shape behind a missing committed row: the kind of the statement that
+// inserted it and whether a DELETE on the same table preceded it inside the same transaction.
+func (rn *runner) missingShape(tag string) string {
+	info, ok := rn.tagOrigin[tag]
+	if !ok {
+		return "unknown-origin"
+	}
+	s := info.plan.Stmts[info.stmt]
+	shape := s.Kind
+	for i := 0; i < info.stmt; i++ {
+		if p := info.plan.Stmts[i]; p.Kind == "delete" && p.Table == s.Table {
+			return shape + "-after-delete-in-same-tx"
+		}
+	}
+	return shape
+}
+
+func modeOf(res *txResult) string {
+	if res == nil {
+		return "none"
+	}
+	return res.plan.Mode
+}
+
+func showRow(r map[string]Val) string {
+	keys := make([]string, 0, len(r))
+	for k := range r {
+		if k != "tag" {
+			keys = append(keys, k)
+		}
+	}
+	sort.Strings(keys)
+	var ps []string
+	for _, k := range keys {
+		ps = append(ps, k+"="+r[k].Lit())
+	}
+	return "{" + strings.Join(ps, " ") + "}"
+}
+
+func listKey(ls [][]string) string {
+	var ks []string
+	for _, l := range ls {
+		ks = append(ks, strings.Join(l, ","))
+	}
+	sort.Strings(ks)
+	return strings.Join(ks, " | ")
+}
+
+func schemaDiff(mt *Table, et *engTable) (class, detail string) {
+	var a, b []string
+	for _, c := range mt.Cols {
+		max := c.Max
+		if c.Type == "INTEGER" {
+			max = 8
+		}
+		a = append(a, fmt.Sprintf("%s %s[%d] notnull=%v", c.Name, c.Type, max, c.NotNull))
+	}
+	for _, c := range et.cols {
+		b = append(b, fmt.Sprintf("%s %s[%d] notnull=%v", c.name, c.typ, c.max, c.notNull))
+	}
+	sort.Strings(a)
+	sort.Strings(b)
+	if strings.Join(a, "; ") != strings.Join(b, "; ") {
+		return "columns", fmt.Sprintf("columns in the catalog {%s}, by committed DDL {%s}", strings.Join(b, "; "), strings.Join(a, "; "))
+	}
+	if listKey(mt.Uniq) != listKey(et.uniq) {
+		return "unique-indexes", fmt.Sprintf("unique indexes in the catalog {%s}, by committed DDL {%s}", listKey(et.uniq), listKey(mt.Uniq))
+	}
+	if listKey(mt.Idx) != listKey(et.idx) {
+		return "indexes", fmt.Sprintf("indexes in the catalog {%s}, by committed DDL {%s}", listKey(et.idx), listKey(mt.Idx))
+	}
+	if strings.Join(mt.PK, ",") != strings.Join(et.pk, ",") {
+		return "primary-key", fmt.Sprintf("primary key in the catalog (%s), declared (%s)", strings.Join(et.pk, ","), strings.Join(mt.PK, ","))
+	}
+	return "", ""
+}
+
+// ---- case -------------------------------------------------------------------
+
+func runCase(c *fw.Ctx, data []byte) {
+	var sp caseSpec
+	if err := json.Unmarshal(data, &sp); err != nil {
+		c.Inconclusive("bad case: " + err.Error())
+		return
+	}
+	if sp.Perturb {
+		h := hook.Install(&hook.Config{Seed: c.Seed*1000 + int64(sp.Index), Perturb: 0.2, MaxSleep: 300 * time.Microsecond})
+		defer func() {
+			hook.Uninstall()
+			hits := h.Hits()
+			if hits["store.precommit.beforeLock"] == 0 {
+				c.Inconclusive("hook sites never reached: was the harness built with -tags verif?")
+			}
+			c.Count("perturbed_programs", 1)
+		}()
+	}
+	prog := genProgram(fw.NewRand(c.Seed, fmt.Sprintf("c12/program/%d", sp.Index)), sp.Sessions, sp.Phases, sp.TxPerSess)
+	dir := c.Dir("c12")
+	defer os.RemoveAll(dir)
+	opts := store.DefaultOptions().WithMultiIndexing(true).WithSynced(false).WithMaxConcurrency(40).
+		WithMaxTxEntries(256).WithLogger(sth.QuietLogger())
+	st, err := store.Open(dir, opts)
+	if err != nil {
+		c.Inconclusive("open: " + err.Error())
+		return
+	}
+	defer st.Close()
+	eng, err := sql.NewEngine(st, sql.DefaultOptions().WithPrefix([]byte{2}))
+	if err != nil {
+		c.Inconclusive("engine: " + err.Error())
+		return
+	}
+	rn := &runner{c: c, spec: sp, st: st, eng: eng, prog: prog, model: newModel(prog.Tables),
+		planRes: map[*TxPlan]*txResult{}, tagOrigin: map[string]tagInfo{}, seenTags: map[string]struct{}{}, hdrSeen: map[uint64]*TxPlan{}}
+	for _, t := range prog.Tables {
+		q := t.CreateSQL()
+		rn.log("%s;", q)
+		if _, _, err, _ := rn.exec(context.Background(), nil, q, nil); err != nil {
+			c.Inconclusive("schema creation failed: " + err.Error() + ": " + q)
+			return
+		}
+	}
+	for i, ph := range prog.Phases {
+		rn.runPhase(i, ph)
+		if rn.timeouts.Load() >= 3 {
+			break
+		}
+	}
+	if n := rn.timeouts.Load(); n > 0 {
+		c.Inconclusive(fmt.Sprintf("program %d: %d operations did not return within %s", sp.Index, n, opTimeout))
+	}
+	if sp.Index < 3 {
+		rows := 0
+		for _, t := range rn.model.Tables {
+			rows += len(t.Rows)
+		}
+		c.Sample(map[string]any{"program": sp.Index, "sessions": sp.Sessions, "tables": len(prog.Tables), "transactions": len(rn.planRes), "live_rows_at_end": rows, "first_table": prog.Tables[0].CreateSQL()})
+	}
+}
